@@ -255,7 +255,7 @@ def write_evidence(pid, tier, seed, meta, results, known_hits, violations, wall,
         'solver_seconds': round(solver, 1),
         'seeded_mutants': mutant_results,
         'undecided_units': [e['unit'] for e in units if e['status'] == 'undecided'],
-        'explanation': meta.get('explanation', ''),
+        'explanation': (meta.get('explanation') or meta.get('text') or meta.get('note') or 'see DESIGN.md'),
         'not_under_contract': meta.get('not_under_contract', []),
         'notes': notes,
     }
